@@ -5,8 +5,10 @@ from .util import call
 
 ID = 'C18'
 LEAN_MODULE = 'KernProofs.C18'
+EXTRA_MODULES = ['KernProofs.C18Doc']
 THEOREMS = ['KM.C18.listener_names_known', 'KM.C18.all_records_ok', 'KM.C18.importWrapped_rule', 'KM.C18.C18_dispatch',
-            'KM.C18.C18_empty_rejected', 'KM.C18.own_not_shared', 'KM.C18.C18_barlines', 'KM.C18.C18_shared_identical', 'KM.C18.C18_verbatim']
+            'KM.C18.C18_empty_rejected', 'KM.C18.own_not_shared', 'KM.C18.C18_barlines', 'KM.C18.C18_shared_identical', 'KM.C18.C18_verbatim',
+            'KM.C18D.C18_cell_in_document', 'KM.C18D.C18_same_text_two_spines']
 FINGERPRINTS = ['importer_factory.createImporter', 'text_spine_importer.TextSpineImporter.import_token',
                 'dynam_spine_importer.DynamSpineImporter.import_token', 'dyn_importer.DynSpineImporter.import_token',
                 'harm_spine_importer.HarmSpineImporter.import_token', 'mhxm_spine_importer.MxhmSpineImporter.import_token',
